@@ -50,11 +50,12 @@ Section Main.
   Proof.
     intros Hfo Hsup. destruct (ro_open_ok hdrdec o ct ro bs npad file sup si Hfo Hsup) as (s & Hs & Hop).
     pose proof (fo_arch _ _ _ _ _ _ _ Hfo) as Ha.
+    pose proof (file_payload_bound hdrdec o ct ro bs npad file Hfo) as H63.
     exists s. split; [exact Hs|]. split; [apply (scan_of_file o ct ro bs npad file Hfo)|].
     split; [apply (ro_keys_spec hdrdec s o (index_wid o ct sup) ro bs npad Ha Hop (file_payload_bound hdrdec o ct ro bs npad file Hfo))|].
     split; [apply (ro_roots_spec hdrdec s o (index_wid o ct sup) ro bs npad Ha Hop)|].
-    intros key kp Hk. split; [apply (ro_getsize_spec hdrdec s o (index_wid o ct sup) ro bs npad key kp Ha Hop Hk)|].
-    intros Hg. split; [apply (ro_has_spec hdrdec s o _ ro bs npad key kp Ha Hop Hk Hg)|apply (ro_get_spec hdrdec s o _ ro bs npad key kp Ha Hop Hk Hg)].
+    intros key kp Hk. split; [apply (ro_getsize_spec hdrdec s o (index_wid o ct sup) ro bs npad key kp Ha Hop H63 Hk)|].
+    intros Hg. split; [apply (ro_has_spec hdrdec s o _ ro bs npad key kp Ha Hop H63 Hk Hg)|apply (ro_get_spec hdrdec s o _ ro bs npad key kp Ha Hop H63 Hk Hg)].
   Qed.
 
   (* C07, storage.OpenReadable *)
@@ -68,9 +69,10 @@ Section Main.
   Proof.
     intros Hfo. destruct (sto_open_ok hdrdec o ct ro bs npad file Hfo) as (s & Hs & Hop & Hr).
     pose proof (fo_arch _ _ _ _ _ _ _ Hfo) as Ha.
+    pose proof (file_payload_bound hdrdec o ct ro bs npad file Hfo) as H63.
     exists s. split; [exact Hs|]. split; [apply (scan_of_file o ct ro bs npad file Hfo)|].
     split; [unfold sto_roots; rewrite Hr; reflexivity|].
-    intros key kp Hk Hg. split; [apply (ro_has_spec hdrdec s o _ ro bs npad key kp Ha Hop Hk Hg)|apply (sto_get_spec hdrdec s o _ ro bs npad key kp Ha Hop Hk Hg)].
+    intros key kp Hk Hg. split; [apply (ro_has_spec hdrdec s o _ ro bs npad key kp Ha Hop H63 Hk Hg)|apply (sto_get_spec hdrdec s o _ ro bs npad key kp Ha Hop H63 Hk Hg)].
   Qed.
 
   (* the two front-ends agree on every query (Get: on hash-consistent sections) *)
